@@ -256,10 +256,14 @@ func (l *queue) Empty() bool {
 	if l.head == nil || l.tail == nil || len(l.segments) == 0 {
 		return true
 	}
-	if l.head == l.tail && l.head.empty() {
-		return true
+	// An exhausted head segment is only trimmed by the next Advance, so the
+	// queue is empty when no segment holds an unread block.
+	for _, s := range l.segments {
+		if !s.empty() {
+			return false
+		}
 	}
-	return false
+	return true
 }
 
 // diskUsage returns the total size on disk used by the queue
